@@ -138,6 +138,9 @@ func equalsV(t types.Type, x, y value) value {
 	case *mchan:
 		return x == y.(*mchan)
 	case structure:
+		if t != nil && isReflectValueType(t) {
+			return compareRV(x, y)
+		}
 		ys := y.(structure)
 		var st *types.Struct
 		if t != nil {
@@ -182,7 +185,7 @@ func equalsV(t types.Type, x, y value) value {
 		if x.t == nil {
 			return true
 		}
-		if !types.Comparable(x.t) {
+		if x.t != rtypeType && x.t != errorType && !types.Comparable(x.t) {
 			panic(runtimeError("comparing uncomparable type " + x.t.String()))
 		}
 		return equalsV(x.t, x.v, yi.v)
